@@ -105,6 +105,15 @@ def paths : List Ev → List Ev → List (List Ev × Exit)
 def pathsOf (evs : List Ev) (want : Exit) : List (List Ev) :=
   ((paths [] evs).filter (·.2 = want)).map (·.1)
 
+/-- the paths through a process kind's three functions, by the way they leave -/
+structure PSet where
+  ctorFull : List (List Ev)   -- constructor returns a process
+  ctorErr  : List (List Ev)   -- constructor returns an error (no process object exists afterwards)
+  runEarly : List (List Ev)   -- Run leaves before the protocol ran
+  runFull  : List (List Ev)   -- Run ran the protocol
+  stop     : List (List Ev)
+deriving Repr
+
 inductive Outcome where
   | ctorerr    -- the constructor refused (signing without a readable share): no process, no Execute
   | refused    -- Execute refused the session as a duplicate
@@ -119,26 +128,34 @@ def Outcome.all : List Outcome := [.ctorerr, .refused, .never, .rejected, .ran]
 def andThen (ds : List Delta) (alts : List (List Ev)) : List Delta :=
   ds.flatMap fun d => alts.map fun p => activation p d
 
-/-- every way a session of process `p` with outcome `o` can go, from lock count `h`.
+def Proc.pset (p : Proc) : PSet :=
+  ⟨pathsOf p.ctor .full, pathsOf p.ctor .ctorErr, pathsOf p.run .early, pathsOf p.run .full,
+   pathsOf p.stop .full ++ pathsOf p.stop .early⟩
+
+/-- every way a session with outcome `o` can go over the path set `s`, from lock count `h`.
     `refusalStops`: the coordinator stops the processes of a refused duplicate (regenerated fact). -/
-def sessionFrom (refusalStops : Bool) (p : Proc) (o : Outcome) (h : Nat) : List Delta :=
-  let born := andThen [Delta.start h] (pathsOf p.ctor .full)
-  let stops := pathsOf p.stop .full ++ pathsOf p.stop .early
+def sessionFromP (refusalStops : Bool) (s : PSet) (o : Outcome) (h : Nat) : List Delta :=
+  let born := andThen [Delta.start h] s.ctorFull
   match o with
-  | .ctorerr  => andThen [Delta.start h] (pathsOf p.ctor .ctorErr)
-  | .refused  => if refusalStops then andThen born stops else born
-  | .never    => andThen born stops
-  | .rejected => andThen (andThen born (pathsOf p.run .early)) stops
-  | .ran      => andThen (andThen born (pathsOf p.run .full)) stops
+  | .ctorerr  => andThen [Delta.start h] s.ctorErr
+  | .refused  => if refusalStops then andThen born s.stop else born
+  | .never    => andThen born s.stop
+  | .rejected => andThen (andThen born s.runEarly) s.stop
+  | .ran      => andThen (andThen born s.runFull) s.stop
+
+/-- every way a session of process `p` with outcome `o` can go, from lock count `h` -/
+def sessionFrom (refusalStops : Bool) (p : Proc) (o : Outcome) (h : Nat) : List Delta :=
+  sessionFromP refusalStops p.pset o h
 
 /-- a session whose processes are retryable (signing): the coordinator's `handleError` makes at most ONE further
     attempt, so `Run` is entered at most twice on one object - each time leaving early (SubsetError, start parameters
     rejected) or running the protocol - and `Stop` is called once. Every combination of paths. -/
-def retriedFrom (p : Proc) (h : Nat) : List Delta :=
-  let born := andThen [Delta.start h] (pathsOf p.ctor .full)
-  let runs := pathsOf p.run .early ++ pathsOf p.run .full
-  let stops := pathsOf p.stop .full ++ pathsOf p.stop .early
-  andThen (andThen (andThen born runs) runs) stops
+def retriedFromP (s : PSet) (h : Nat) : List Delta :=
+  let born := andThen [Delta.start h] s.ctorFull
+  let runs := s.runEarly ++ s.runFull
+  andThen (andThen (andThen born runs) runs) s.stop
+
+def retriedFrom (p : Proc) (h : Nat) : List Delta := retriedFromP p.pset h
 
 /-- the production entry points (`KeygenEventHandler`, `FrostKeygenEventHandler`, `RefreshEventHandler`): construct the
     process, call `Execute`, log its error - and touch the process no further. `extraStop` = the seeded variant that
@@ -196,15 +213,16 @@ def CState.finish (c : CState) : CState :=
 /-- every way a session of `p` with outcome `o` can go when the lock is held by somebody else as it begins: which
     path each function takes AFTER the session got the lock is free (a cancellation that arrived while it waited may
     send it down any early return) -/
-def contendedFrom (p : Proc) (o : Outcome) : List CState :=
-  let born := andThenC [CState.init] (pathsOf p.ctor .full)
-  let stops := pathsOf p.stop .full ++ pathsOf p.stop .early
+def contendedFromP (s : PSet) (o : Outcome) : List CState :=
+  let born := andThenC [CState.init] s.ctorFull
   (match o with
-  | .ctorerr  => andThenC [CState.init] (pathsOf p.ctor .ctorErr)
-  | .refused  => andThenC born stops
-  | .never    => andThenC born stops
-  | .rejected => andThenC (andThenC born (pathsOf p.run .early)) stops
-  | .ran      => andThenC (andThenC born (pathsOf p.run .full)) stops).map CState.finish
+  | .ctorerr  => andThenC [CState.init] s.ctorErr
+  | .refused  => andThenC born s.stop
+  | .never    => andThenC born s.stop
+  | .rejected => andThenC (andThenC born s.runEarly) s.stop
+  | .ran      => andThenC (andThenC born s.runFull) s.stop).map CState.finish
+
+def contendedFrom (p : Proc) (o : Outcome) : List CState := contendedFromP p.pset o
 
 /-- for exclusive kinds nothing releases the lock between the start of the protocol (`W`) and the end of `Run` -/
 def noReleaseAfterW : List Ev → Bool
